@@ -204,6 +204,9 @@ func runC19(c *Ctx) {
 	ruleConflictsSymm(c, p, "C19.symm")
 	ruleSliceOrder(c, p, "C19.slices")
 	ruleAdopt(c, p, "C19.adopt")
+	ruleInferErrors(c, p, "C19.infer-errors")
+	ruleAutoAtomic(c, p, "C19.auto-atomic")
+	ruleStringIdioms(c, p, "C19.idioms")
 	ruleInferTables(c, p, "C19")
 	rule := ""
 	_ = rule
@@ -857,6 +860,112 @@ func ruleEnumIntPairs(c *Ctx, p *core.Program, rule string) {
 			c.R.Ok(rule, "proto.(ColumnType).Conflicts/enumwidth", cfg, p.Pos(fd.Pos()), "no enum/raw-integer equivalence clauses").Trivial = true
 		} else {
 			c.R.Ok(rule, "proto.(ColumnType).Conflicts/enumwidth", cfg, p.Pos(fd.Pos()), sprintf("%d enum/integer equivalence clauses, widths equal", n))
+		}
+	}
+}
+
+// ruleAutoAtomic (C19.auto-atomic): ColAuto.Infer changes the column only when it succeeds.
+func ruleAutoAtomic(c *Ctx, p *core.Program, rule string) {
+	c.R.Rule(rule, "ColAuto.Infer is all-or-nothing: from a store to a field of the receiver (DataType, Data) no failure exit is reachable - the `already inferred` shortcut compares the requested type with the stored DataType, so a DataType recorded before a failing inference makes the next Infer of the same (unsupported) type report success while Data still holds the previous column")
+	cfg := p.Cfg.Name
+	inf := p.Method(core.PkgProto, "ColAuto", "Infer")
+	if !c.must(p, "(*proto.ColAuto).Infer", inf != nil) {
+		return
+	}
+	recv := inf.Params[0]
+	n, bad := 0, false
+	for _, b := range inf.Blocks {
+		for _, in := range b.Instrs {
+			st, ok := in.(*ssa.Store)
+			if !ok {
+				continue
+			}
+			fa, ok := st.Addr.(*ssa.FieldAddr)
+			if !ok || fa.X != ssa.Value(recv) {
+				continue
+			}
+			n++
+			hits := core.ReachAvoiding(core.PointOf(st), func(x ssa.Instruction) bool {
+				ret, ok := x.(*ssa.Return)
+				if !ok || x.Block().Comment == "recover" {
+					return false
+				}
+				rv := core.ReturnErr(inf, ret)
+				return rv != nil && !core.MayBeNilError(rv, 0)
+			}, nil, nil)
+			if len(hits) > 0 && !bad {
+				bad = true
+				c.R.Bad(rule, "ColAuto.Infer", cfg, p.Pos(st.Pos()), sprintf("ColAuto.%s is assigned on a path that can still fail (%s): after the failure the column is half updated", fieldNameOnly(fa.X.Type(), fa.Field), p.Pos(hits[0].At.Pos())))
+			}
+		}
+	}
+	if n == 0 {
+		c.R.Unk(rule, "ColAuto.Infer", cfg, p.Pos(inf.Pos()), "no store to the receiver found")
+	} else if !bad {
+		c.R.Ok(rule, "ColAuto.Infer", cfg, p.Pos(inf.Pos()), sprintf("%d stores to the receiver, none followed by a failure exit", n))
+	}
+}
+
+// ruleStringIdioms (C19.idioms): two string-normalisation idioms that cannot be right here.
+func ruleStringIdioms(c *Ctx, p *core.Program, rule string) {
+	c.R.Rule(rule, "idiom rules for the type-string handling (each names a construct whose semantics cannot implement the documented behaviour): (1) in the normalisation Conflicts applies to its operands, whitespace after commas is not removed by strings.Replace / ReplaceAll / NewReplacer with a literal pattern containing a blank (that handles exactly one blank of exactly that kind); (2) in the enum definition parser the quoted name is not cut with a strings.Trim* cutset that contains both the quote and whitespace (that also strips blanks that are part of the name, so `' a'` and `'a'` collapse)")
+	cfg := p.Cfg.Name
+	constStr := func(v ssa.Value) (string, bool) {
+		cst, ok := v.(*ssa.Const)
+		if !ok || cst.Value == nil || cst.Value.Kind() != constant.String {
+			return "", false
+		}
+		return constant.StringVal(cst.Value), true
+	}
+	// (1)
+	if cf := p.Method(core.PkgProto, "ColumnType", "Conflicts"); cf != nil {
+		bad := false
+		for _, fn := range append([]*ssa.Function{cf}, core.StaticReachList(cf)...) {
+			if fn == nil || pkgOf(fn) == nil || pkgOf(fn).Path() != core.PkgProto {
+				continue
+			}
+			for _, call := range core.Calls(fn) {
+				f := core.CalleeFunc(call)
+				if f == nil || f.Pkg() == nil || f.Pkg().Path() != "strings" {
+					continue
+				}
+				switch f.Name() {
+				case "Replace", "ReplaceAll", "NewReplacer":
+					for _, a := range call.Common().Args {
+						for _, e := range variadicElems(a) {
+							if s, ok := constStr(e); ok && strings.ContainsAny(s, " \t") && strings.Contains(s, ",") {
+								bad = true
+								c.R.Bad(rule, "Conflicts/commas", cfg, p.Pos(call.Pos()), sprintf("%s with the literal pattern %q normalises exactly that one spelling: `A,  B`, a tab or a newline after the comma still make equal types conflict", f.Name(), s))
+							}
+						}
+					}
+				}
+			}
+		}
+		if !bad {
+			c.R.Ok(rule, "Conflicts/commas", cfg, p.Pos(cf.Pos()), "no literal-pattern replacement of blanks after commas")
+		}
+	}
+	// (2)
+	if pe := p.Method(core.PkgProto, "ColEnum", "parse"); pe != nil {
+		bad := false
+		for _, fn := range append([]*ssa.Function{pe}, core.StaticReachList(pe)...) {
+			if fn == nil || pkgOf(fn) == nil || pkgOf(fn).Path() != core.PkgProto {
+				continue
+			}
+			for _, call := range core.Calls(fn) {
+				f := core.CalleeFunc(call)
+				if f == nil || f.Pkg() == nil || f.Pkg().Path() != "strings" || !strings.HasPrefix(f.Name(), "Trim") || len(call.Common().Args) != 2 {
+					continue
+				}
+				if s, ok := constStr(call.Common().Args[1]); ok && strings.ContainsAny(s, "'\"") && strings.ContainsAny(s, " \t") {
+					bad = true
+					c.R.Bad(rule, "ColEnum.parse/names", cfg, p.Pos(call.Pos()), sprintf("%s with cutset %q removes the quotes and any blanks next to them in one step, including blanks inside the quotes: enum names that differ only in leading/trailing blanks collapse to one name", f.Name(), s))
+				}
+			}
+		}
+		if !bad {
+			c.R.Ok(rule, "ColEnum.parse/names", cfg, p.Pos(pe.Pos()), "quotes and surrounding blanks are not stripped by one cutset")
 		}
 	}
 }
